@@ -10,7 +10,7 @@ from numba_scfg.core.datastructures.basic_block import (
 
 from . import gen_graphs as gg
 from . import models as M
-from .core import exc_sig, library_raised, norm
+from .core import debug_logging, exc_sig, library_raised, norm
 
 STAGES3 = ("closed", "loop", "branch")
 
@@ -24,7 +24,12 @@ def build(g, stage, payload="plain", trees=None):
         # remember the identity of every statement object (C05)
         originals["__tree_ids__"] = {k: [id(n) for n in b.tree] for k, b in scfg.graph.items()}
     try:
-        M.apply_stage(scfg, stage)
+        if len(g) % 4 == 3 and len(g) <= 12:
+            # a quarter of the (small) graphs runs under the configuration "debug logging on"
+            with debug_logging():
+                M.apply_stage(scfg, stage)
+        else:
+            M.apply_stage(scfg, stage)
     except RecursionError as e:
         return scfg, originals, e
     except Exception as e:  # the library raised: C02's business
